@@ -43,7 +43,7 @@ def gen_lines(ctx):
         L.append("rwl %d %s" % (rng.choice(EDGE_CODES + [rng.randrange(256)]), ",".join(ents)))
     for c in ([69, 132, 160, 65, 128, 165] if not thorough else EDGE_CODES):
         for v in ("2", "8", "16", "26", "10"):
-            for x in ("x2049", "x292,65000", "x11,2053"):
+            for x in ("x2049", "x292,65000", "x11,2053", "m3", "m3,15", "m15,17"):
                 L.append("srv udp con %s %d %s" % (v, c, x))
                 L.append("srv udp non %s %d %s" % (v, c, x))
                 L.append("srv tcp non %s %d %s" % (v, c, x))
